@@ -11,7 +11,7 @@ def specs(tier):
             out.append(TaskSpec("accepts_event[%s event, %s filter]" % (e, t), "contracts.client", "task_c16_accepts", (e, t), replay_kind="client.events"))
     for k in ((0, 1, 2) if tier == "quick" else (0, 1, 2, 3)):
         out.append(TaskSpec("onevent/rmonevent[%d registered]" % k, "contracts.client", "task_c16_registry", (k,), replay_kind="client.events"))
-    for vk in ("Text", "Switch", "Number", "Light"):
+    for vk in ("Text", "Switch", "Number", "Light", "BLOB"):
         out.append(TaskSpec("event-chain[%s]" % vk, "contracts.client", "task_c16_chain", (vk, 2), replay_kind="client.events"))
     return out
 
@@ -30,6 +30,7 @@ def run(tier, seed):
         "BLOB values compare by identity, as in the code",
     ]
     chk.min_obligations = 1500
-    chk.standin_on_out_of_reach("native client event scenarios", "client.events", {"seed": seed},
-                                bound_text="random streams with registered callbacks (all filter combinations), events compared with an independent reference")
+    chk.standin_on_out_of_reach("native client event scenarios", "client.events", {"seed": seed, "n": 120 if tier == "quick" else 1500}, always=True,
+                                bound_text="random streams (as in C15) with a catch-all listener (chains unbroken per element / property object, listener never stale) and 0-4 filtered callbacks "
+                                           "(every filter combination, raising callbacks, removal by id at random points) checked against an independent matching rule")
     return chk.finish()
